@@ -89,7 +89,12 @@ class Coerce:
                         z3.Or(z3.And(isinst(d, "str"), dhas0[STR_TO_BOOL][LOWER(d)], r == dget0[STR_TO_BOOL][LOWER(d)]), z3.And(isinst(d, "int"), r == z3.If(T.ival(d) != 0, T.True_, T.False_))),
                         z3.If(
                             z3.Or(k == K("int"), k == K("float")),
-                            z3.And(T.sub(cls(r), k) if False else z3.Or(cls(r) == k, z3.Not(z3.Or(isinst(d, "str"), isinst(d, "int"), isinst(d, "float")))), z3.Not(z3.Or(d == T.None_, isinst(d, "list"), isinst(d, "dict")))),
+                            z3.And(
+                                z3.Or(cls(r) == k, z3.Not(z3.Or(isinst(d, "str"), isinst(d, "int"), isinst(d, "float")))),
+                                z3.Not(z3.Or(d == T.None_, isinst(d, "list"), isinst(d, "dict"))),
+                                # int() / float() between strings and numbers: a boolean is not a number
+                                z3.Not(isinst(d, "bool")),
+                            ),
                             z3.And(k == K("str"), z3.Or(isinst(d, "int"), isinst(d, "float")), z3.Not(isinst(d, "bool")), r == STR_OF(d)),
                         ),
                     ),
